@@ -47,7 +47,7 @@ import (
 // ---- adapters (only place that touches unexported identifiers) -------------
 
 func c15KeepBackgroundOut(s *StressRelief) { s.disableStressLevelReport = true }
-func c15OwnID(s *StressRelief) string       { return s.hostID }
+func c15OwnID(s *StressRelief) string      { return s.hostID }
 func c15Report(level uint, id string) string {
 	return newStressReliefMessage(level, id).String()
 }
